@@ -2,14 +2,22 @@ package common
 
 import (
 	"encoding/binary"
+	"errors"
 	"io"
 	"strings"
 )
 
-// WriteString writes a string preceded by its length (up to 256 bytes)
+// ErrStringTooLong is returned by WriteString for strings that do not fit the
+// one-byte length prefix.
+var ErrStringTooLong = errors.New("string longer than 255 bytes")
+
+// WriteString writes a string preceded by its length (up to 255 bytes)
 // TODO(baumanl): make this better/make sure they work with updates to reliable tubes
 func WriteString(s string, w io.Writer) (int64, error) {
 	var written int64
+	if len(s) > 255 {
+		return written, ErrStringTooLong
+	}
 	// write length of string as one byte
 	n, err := w.Write([]byte{byte(len(s))})
 	written += int64(n)
@@ -24,7 +32,7 @@ func WriteString(s string, w io.Writer) (int64, error) {
 	return written, nil
 }
 
-// ReadString reads a variable length string (up to 256 bytes)
+// ReadString reads a variable length string (up to 255 bytes)
 // TODO(baumanl): make this better/make sure they work with updates to reliable tubes
 func ReadString(r io.Reader) (string, int64, error) {
 	var bytesRead int64
